@@ -601,8 +601,11 @@ async fn check_plan(ctx: &SessionContext, fresh: &SessionContext, stage: &'stati
     }
     let limited = text.contains("Limit:");
     if exec && out.ok {
-        let r1 = async { ctx.execute_logical_plan(p.clone()).await?.collect().await }.await;
-        let r2 = async { fresh.execute_logical_plan(back.clone()).await?.collect().await }.await;
+        // a panic of the engine while EXECUTING a plan is not a serialisation matter: it counts as an execution error of that side
+        use futures::FutureExt;
+        let flat = |r: Result<datafusion::common::Result<Vec<RecordBatch>>, Box<dyn std::any::Any + Send>>| match r { Ok(x) => x, Err(p) => Err(datafusion::common::DataFusionError::Execution(format!("panic: {}", panic_msg(p)))) };
+        let r1 = flat(AssertUnwindSafe(async { ctx.execute_logical_plan(p.clone()).await?.collect().await }).catch_unwind().await);
+        let r2 = flat(AssertUnwindSafe(async { fresh.execute_logical_plan(back.clone()).await?.collect().await }).catch_unwind().await);
         match (r1, r2) {
             (Ok(a), Ok(b)) => {
                 let (mut x, mut y) = (rows_of(&a), rows_of(&b));
@@ -768,7 +771,7 @@ fn main() {
     let seed: u64 = arg(&args, "--seed", "1").parse().unwrap();
     let n: u64 = arg(&args, "--n", "40").parse().unwrap();
     let dir = arg(&args, "--dir", &format!("/tmp/c35_{}", std::process::id()));
-    std::panic::set_hook(Box::new(|_| {}));
+    if std::env::var("HARNESS_BACKTRACE").is_err() { std::panic::set_hook(Box::new(|_| {})); }
     let _ = std::fs::remove_dir_all(&dir);
     std::fs::create_dir_all(&dir).unwrap();
 
